@@ -99,7 +99,9 @@ def build_exchange(cfg: dict, pj: Proj, max_concurrent: int = 1):
     ex = exchange.Exchange(d, init, liquidity_strategy_factory=liq, fee_strategy=fee, lending_strategy=lend,
                            default_pair_info=None)
     for s in cfg["syms"]:
-        ex.set_symbol_precision(s, pj.prec(s))
+        # precOverride: the configured precision of a symbol that is only borrowed (never traded) may be coarser than the
+        # model's units, so that loan amounts finer than the symbol's precision can be expressed
+        ex.set_symbol_precision(s, cfg.get("precOverride", {}).get(s, pj.prec(s)))
     pairs = [Pair(p["b"], p["q"]) for p in cfg["pairs"]]
     return d, ex, pairs
 
